@@ -598,6 +598,15 @@ class EQLTranslator:
         if left_rel is None or right_rel is None:
             return None
 
+        if isinstance(query.left._child_, Attribute) or isinstance(
+            query.right._child_, Attribute
+        ):
+            # the join is built from the last attribute and the variable's own table: what lies in between
+            # (d.handle in d.handle.world == h.world) would be dropped
+            raise UnsupportedQueryTypeError(
+                "An equality between relationships at the end of a longer attribute chain cannot be translated"
+            )
+
         if issubclass(left_dao, right_dao) or issubclass(right_dao, left_dao):
             # The statement has one FROM element per mapped class, so two variables of one mapped hierarchy cannot be
             # told apart without aliases: the join would compare each row with itself.
